@@ -8,7 +8,9 @@
  *   VSHIM_CRASH=key:k         die (SIGKILL) before the k-th mutating call of process `key`
  *   VSHIM_CRASHFLAG=path      created at the crash; every other process dies at its next mutating call
  *   VSHIM_SIGNAL=key:k:signo  process `key` receives signal signo just before its k-th mutating call (raise(): the program's own
- *                             handler runs at that instant, e.g. qmail-queue's 24 h alarm)
+ *                             handler runs at that instant, e.g. qmail-queue's 24 h alarm); "key:k:signo:after" = right after that call
+ *                             has been performed, before the program sees its result (where the kernel delivers a signal that arrived
+ *                             during the call: program state set "once the call has returned" is not yet set)
  *   VSHIM_DNS=dir              res_query()/res_search() answer from files: dir/<type>.<name lower-cased> holds the raw DNS response, a file
  *                             dir/<type>.<name>.err holds the h_errno value to fail with; no file = HOST_NOT_FOUND (no packet leaves the box)
  *   VSHIM_SWAPOPEN=key|substr|src  right after the first successful open() of a path containing `substr` the file `src` is renamed over
@@ -70,7 +72,7 @@ static char fault_key[160], fault_class[32]; static long fault_k = -1; static in
 static long mutcount;
 static long classcount[32];
 static long forkgen; static long crash_gen = -1, fault_gen = -1;
-static char sig_key[128]; static long sig_k = -1; static int sig_no;
+static char sig_key[128]; static long sig_k = -1; static int sig_no; static int sig_after, sig_armed;
 static char pause_key[128], pause_sub[200]; static long pause_n = -1, pause_seen;
 static char swap_key[128], swap_sub[300], swap_src[600]; static int swap_done;
 static volatile long long *clockoff;
@@ -126,7 +128,7 @@ static void init(void)
   crashflag = getenv("VSHIM_CRASHFLAG");
   s = getenv("VSHIM_SIGNAL");
   if (s) { char b[200], *p, *q; snprintf(b, sizeof b, "%s", s); p = strchr(b, ':');
-           if (p) { *p++ = 0; q = strchr(p, ':'); if (q) { *q++ = 0; snprintf(sig_key, sizeof sig_key, "%s", b); sig_k = atol(p); sig_no = atoi(q); } } }
+           if (p) { *p++ = 0; q = strchr(p, ':'); if (q) { *q++ = 0; snprintf(sig_key, sizeof sig_key, "%s", b); sig_k = atol(p); sig_no = atoi(q); sig_after = strstr(q, ":after") != 0; } } }
   s = getenv("VSHIM_PAUSE");
   if (s) { char b[400], *p, *q; snprintf(b, sizeof b, "%s", s); p = strchr(b, '|');
            if (p) { *p++ = 0; q = strchr(p, '|'); if (q) { *q++ = 0; snprintf(pause_key, sizeof pause_key, "%s", b); snprintf(pause_sub, sizeof pause_sub, "%s", p); pause_n = atol(q); } } }
@@ -216,6 +218,7 @@ static void tr(const char *fmt, ...)
      anything a check produces (largest legitimate trace measured: 40 MB) */
   trace_bytes += n;
   if (trace_bytes > (256L << 20)) raise(SIGKILL);
+  if (sig_armed) { sig_armed = 0; raise(sig_no); }
   errno = e;
 }
 
@@ -319,8 +322,9 @@ static void maybe_crash(const char *call, const char *arg)
   }
   if (sig_k >= 0 && mutcount == sig_k && keymatch(sig_key) && forkgen == 0) {
     long k = mutcount++;            /* the handler may itself make mutating calls */
-    tr("SIGNAL\t%ld\t%d\t%s\t%s", k, sig_no, call, arg ? arg : "-");
-    raise(sig_no);
+    tr("SIGNAL\t%ld\t%d\t%s\t%s%s", k, sig_no, call, arg ? arg : "-", sig_after ? "\tafter" : "");
+    if (sig_after) sig_armed = 1;   /* raised by tr() when the wrapper logs the result of the call */
+    else raise(sig_no);
     return;
   }
   ++mutcount;
